@@ -2,7 +2,7 @@
 From Coq Require Import ZArith Bool List Lia.
 From MomoCommon Require Import GenPrelude.
 From C18 Require Import Gen_Vertices Gen_Ceil Model Layout Fill Vertices Bits Inv.
-From C18 Require Gen_List Gen_Bits.
+From C18 Require Gen_List Gen_Bits Gen_Mut.
 Import ListNotations.
 Local Open Scope Z_scope.
 
@@ -193,6 +193,25 @@ Section WithL.
       pose proof (run_f_inv L keep HL ops Hops) as I.
       destruct (chain_in _ _ _ _ (inv_chain L keep _ I) Hr) as (Q & _). pose proof (slot_range keep). unfold slot in *. lia.
     - intros o Ho H. rewrite GetBit_refines in H by auto. apply (H2 o Ho H).
+  Qed.
+
+  (* the GENERATED IsMutable member (assertion offset < mTotalSize, then the generated GetBit on mMutableOffsets.GetItems()) on
+     every reachable state: for the offset of a column its assertion holds and the answer is "added as mutable"; for any
+     offset inside the row the answer is true only at mutable columns *)
+  Theorem reachable_generated_IsMutable ops : Forall (fun op => group_ok (snd op)) ops ->
+    let st := reach_f ops in
+    (forall r, In r (columns st) -> Gen_Mut.IsMutable Gen_Bits.GetBit (totalSize st) (mutBytes st) (r_off r) = Ok (r_mut r)) /\
+    (forall o, 0 <= o < totalSize st -> exists b, Gen_Mut.IsMutable Gen_Bits.GetBit (totalSize st) (mutBytes st) o = Ok b /\
+       (b = true -> exists r, In r (columns st) /\ r_off r = o /\ r_mut r = true)).
+  Proof.
+    intros Hops st. destruct (reachable_generated_GetBit ops Hops) as (H1 & H2). fold st in H1, H2.
+    pose proof (run_f_inv L keep HL ops Hops) as I. fold st in I. split.
+    - intros r Hr. unfold Gen_Mut.IsMutable.
+      destruct (chain_in _ _ _ _ (inv_chain L keep _ I) Hr) as (_ & Q2 & _ & Q4).
+      destruct (Z.ltb_spec (r_off r) (totalSize st)) as [_|Hge]; [|exfalso; clear - Q2 Q4 Hge; lia].
+      rewrite (H1 r Hr). reflexivity.
+    - intros o Ho. unfold Gen_Mut.IsMutable. destruct (Z.ltb_spec o (totalSize st)) as [_|Hge]; [|exfalso; clear - Ho Hge; lia].
+      eexists. split; [reflexivity|]. intros Hb. apply H2; [lia|exact Hb].
   Qed.
 
   (* in every reachable state mCodeParam is at most the source's maxCodeParam, so every vertex index computed from it --
